@@ -5,6 +5,7 @@ import (
 	"errors"
 	"flag"
 	"fmt"
+	"math"
 	"math/rand"
 	"os"
 	"regexp"
@@ -615,6 +616,9 @@ func (s *sysRun) userOp() {
 		p.ScheduledAt = option.Some(s.now.Add(offs[s.r.Intn(len(offs))]))
 		if s.r.Intn(3) == 0 {
 			p.Priority = option.Some(s.r.Intn(3) - 1)
+			if s.r.Intn(8) == 0 {
+				p.Priority = option.Some([]int{math.MaxInt, math.MinInt, math.MaxInt - 1, math.MinInt + 1}[s.r.Intn(4)])
+			}
 		}
 		fresh := fmt.Sprintf("t%d", s.idCtr+1)
 		p.Param = option.Some(map[string]string{"id": fresh})
@@ -634,6 +638,9 @@ func (s *sysRun) userOp() {
 		}
 		if s.r.Intn(2) == 0 {
 			p.Priority = option.Some(s.r.Intn(3) - 1)
+			if s.r.Intn(8) == 0 {
+				p.Priority = option.Some([]int{math.MaxInt, math.MinInt, math.MaxInt - 1, math.MinInt + 1}[s.r.Intn(4)])
+			}
 		}
 		err := s.obs.UpdateById(ctx, id, p)
 		s.stats["user:update"]++
